@@ -331,6 +331,12 @@ pub struct StreamScenario {
     /// The reader overwrites the unused tail of the buffer offered (and the
     /// whole buffer when failing with scribble) with garbage.
     pub scribble: bool,
+    /// The simulated reader / writer override `read_vectored` / `write_vectored`
+    /// (like `&[u8]`, `File`, sockets): the byte budget of a step is spent across
+    /// all slices offered. Otherwise only `read` / `write` exist (std's default
+    /// vectored methods then use the first non-empty slice only).
+    #[serde(default)]
+    pub vectored: bool,
     pub op: StreamOp,
     #[serde(with = "hexvec")]
     pub table: Vec<Vec<u8>>,
